@@ -37,6 +37,7 @@ CONFIGS = {
 }
 PRELUDE = st.SCHEME_PRELUDE + r"""
 (define (cons* x . r) (if (null? r) x (cons x (apply cons* r))))
+(define (last-pair* l n) (if (and (pair? (cdr l)) (> n 0)) (last-pair* (cdr l) (- n 1)) l))
 (define (to-text writer x) (let ((o (open-output-string))) (writer x o) (get-output-string o)))
 (define (first-diff-aux x y d skip-flo)
   (cond ((> d 60) #f)
@@ -145,14 +146,29 @@ def gen_tree(rng, depth, safe=False):
 
 def gen_graph(rng):
     """shared / circular structure with up to 6 labels"""
-    n = rng.range(1, 4)
+    if rng.chance(1, 3):
+        # motif: labelled objects chained through their tails (a shared tail whose own tail is shared, ...), optionally closed into a cycle
+        # through all of them, optionally ending in a shared non-list (dotted shared tail)
+        n = rng.range(2, 5)
+        binds = ["(s%d %s)" % (i, rng.choice(["(list 'x)", "(cons 'p 'q)", "(list 'y 'z)", "(list 1 2 3)"])) for i in range(n)]
+        end = rng.below(3)
+        if end == 1:
+            binds[-1] = "(s%d %s)" % (n - 1, rng.choice(["(vector 'a 'b)", '(string-append "sh" "ared")']))
+        body = ["(set-cdr! (last-pair* s%d 8) s%d)" % (i, i + 1) for i in range(n - 1)]
+        if end == 2:
+            body.append("(set-cdr! (last-pair* s%d 8) s0)" % (n - 1))
+        order = list(range(n))
+        rng.shuffle(order)
+        refs = " ".join("s%d" % i for i in order[:rng.range(1, n)] + [rng.below(n) for _ in range(rng.below(3))])
+        return "(let* (%s) %s (list %s %s))" % (" ".join(binds), " ".join(body), refs, gen_tree(rng, 1, False)), True
+    n = rng.range(1, 5)
     binds = []
     for i in range(n):
-        binds.append("(s%d %s)" % (i, rng.choice(["(list 1 2 3)", "(vector 'a 'b)", '(string-append "sh" "ared")', "(list (list 'deep))", "(cons 'p 'q)"])))
+        binds.append("(s%d %s)" % (i, rng.choice(["(list 1 2 3)", "(vector 'a 'b)", '(string-append "sh" "ared")', "(list (list 'deep))", "(cons 'p 'q)", "(list 'x)", "(list 'y 'z)"])))
     body = []
     cyc = False
     for i in range(n):
-        c = rng.below(5)
+        c = rng.below(7)
         if c == 0 and i > 0:
             body.append("(if (pair? s%d) (set-car! s%d s%d))" % (i, i, i - 1))
         elif c == 1:
@@ -161,6 +177,12 @@ def gen_graph(rng):
         elif c == 2:
             body.append("(if (vector? s%d) (vector-set! s%d 1 s%d))" % (i, i, i))
             cyc = True
+        elif c >= 3 and n > 1:
+            # sharing in tail position: the end of one list is another labelled object (a list: a shared tail, possibly with a shared tail of
+            # its own; a vector or string: a shared dotted tail); towards a later node this can close a cycle through several nodes
+            j = rng.below(n)
+            if j != i:
+                body.append("(if (pair? s%d) (set-cdr! (last-pair* s%d 8) s%d))" % (i, i, j))
     refs = " ".join("s%d" % rng.below(n) for _ in range(rng.range(2, 6)))
     extra = gen_tree(rng, 2, False)
     return "(let* (%s) %s (list %s %s))" % (" ".join(binds), " ".join(body), refs, extra), True
